@@ -46,144 +46,58 @@ def _decode_sequence(ctx, fn, module, body):
     return out
 
 
-@rule(P, "D5.1", "T-SIB", floor=3)
+@rule(P, "D5.1", "T-WITNESS", floor=3)
 def d5_1(ctx):
-    """Requested symbol attributes and decoded record fields agree in count, order and widths; same firmware predicate on both sides."""
-    sp = ctx.spec("logix_symbol")["symbol_attributes"]
-    lx = _lx(ctx)
-    req = lx.methods["_get_instance_attribute_list_service"]
-    lists = [n for n in walk(req) if isinstance(n, ast.Assign) and atom_name(n.targets[0]) == "attributes" and isinstance(n.value, ast.List)]
-    if len(lists) != 1:
-        ctx.undecided(ckey(lx.key + "._get_instance_attribute_list_service", "attributes"), req, "attribute list not found")
-        return
-    ids = []
-    for e in lists[0].value.elts:
-        v = ctx.folder.eval(e, lx.module)
-        ids.append(int.from_bytes(v, "little") if isinstance(v, bytes) and len(v) == 2 else None)
-    cond_ids, pred = [], None
-    for n in walk(req):
-        if isinstance(n, ast.If):
-            for c in walk(n):
-                if isinstance(c, ast.Call) and attr_path(c.func) == "attributes.append":
-                    v = ctx.folder.eval(c.args[0], lx.module)
-                    cond_ids.append(int.from_bytes(v, "little") if isinstance(v, bytes) and len(v) == 2 else None)
-                    pred = n.test
-    # expected decode sequence
-    def types_for(aid):
-        t = sp.get(str(aid), [None, None])[1]
-        if t is None:
-            return None
-        if t.endswith("[3]"):
-            return [t[:-3]] * 3
-        return [t]
-    want = [("UDINT", None)]
-    ok_ids = None not in ids and all(types_for(a) for a in ids + cond_ids)
-    if ok_ids:
-        for a in ids:
-            want += [(t, None) for t in types_for(a)]
-        for a in cond_ids:
-            want += [(t, "P") for t in types_for(a)]
-    par = lx.methods["_parse_instance_attribute_list"]
-    loops = [n for n in walk(par) if isinstance(n, ast.While)]
-    got = _decode_sequence(ctx, par, lx.module, loops[0].body) if loops else []
-    pd = dump(pred) if pred is not None else None
-    got_n = [(t, None if c is None else ("P" if c == pd else "other")) for t, c in got]
-    ctx.check(ok_ids and got_n == want, ckey(lx.key + "._parse_instance_attribute_list", "fields"), par, f"requests attributes {ids}+{cond_ids}; decodes instance id + their types in order",
-              f"requested attributes {ids} (+{cond_ids} under the firmware predicate) imply the record {want}, but the parser decodes {got_n}: every following field and tag is mis-parsed", requested=ids, conditional=cond_ids, decoded=got_n)
-    # the request carries len(attributes) and all of them
-    add = [c for c in walk(req) if isinstance(c, ast.Call) and attr_path(c.func) == "request.add"]
-    ok = len(add) == 1 and len(add[0].args) == 4 and src(add[0].args[2]).replace(" ", "") == "UINT.encode(len(attributes))" and isinstance(add[0].args[3], ast.Starred) and atom_name(add[0].args[3].value) == "attributes" and ctx.folder.eval(add[0].args[0], lx.module) == bytes.fromhex(ctx.spec("helpers")["symbol_list"]["service"])
-    ctx.check(ok, ckey(lx.key + "._get_instance_attribute_list_service", "request"), add[0] if add else req, "service 55, path, UINT attribute count, attributes", "the symbol list request is not `service, path, UINT(len(attributes)), *attributes`")
-    # predicate: revision_major >= MIN_VER_EXTERNAL_ACCESS
-    c = cmp_norm(pred, lambda e: ctx.folder.eval(e, lx.module) if isinstance(e, ast.Name) else None) if pred is not None else None
-    ok = c is not None and c[0] == "<=0" and c[1].terms == {"self.revision_major": -1} and c[1].const == ctx.folder.module_value("pycomm3.const", "MIN_VER_EXTERNAL_ACCESS") == 18
-    ctx.check(ok, ckey(lx.key, "external-access-predicate"), pred or req, "external access requested and decoded for firmware >= 18", "the firmware predicate for the external-access attribute changed")
+    """The symbol attributes requested and the record fields decoded agree in count, order and widths, under the same firmware
+    predicate.  Decided by folding the request loop and the reply parser on witnesses (D5.16): the attribute list of each
+    request (6 attributes, 7 from the firmware that has external access) and the record layout the parser reads for both
+    firmware classes."""
+    from .driver import d5_16
+
+    d5_16(ctx)
 
 
-@rule(P, "D5.2", "T-ACC", floor=3)
+@rule(P, "D5.2", "T-WITNESS", floor=3)
 def d5_2(ctx):
-    """Pagination: loop until -1, request carries last_instance, parser returns -1 on success and last decoded instance + 1 on partial transfer; one list across pages."""
-    lx = _lx(ctx)
-    req = lx.methods["_get_instance_attribute_list_service"]
-    loops = [n for n in walk(req) if isinstance(n, ast.While)]
-    ok = False
-    if len(loops) == 1:
-        lp = loops[0]
-        c = cmp_norm(lp.test)
-        ok = c is not None and c[0] == "!=0" and c[1].terms == {"last_instance": 1} and c[1].const == 1
-        init = [n for n in walk(req) if isinstance(n, ast.Assign) and atom_name(n.targets[0]) == "last_instance" and not any(n is x for x in walk(lp))]
-        ok = ok and len(init) == 1 and ctx.folder.eval(init[0].value, lx.module) == 0
-        seg = [x for x in walk(lp) if isinstance(x, ast.Call) and call_name(x) == "LogicalSegment" and atom_name(x.args[0]) == "last_instance" and ctx.folder.eval(x.args[1], lx.module) == "instance_id"]
-        upd = [n for n in walk(lp) if isinstance(n, ast.Assign) and atom_name(n.targets[0]) == "last_instance" and isinstance(n.value, ast.Call) and attr_path(n.value.func) == "self._parse_instance_attribute_list" and [atom_name(a) for a in n.value.args] == ["response", "tag_list"]]
-        tl = [n for n in walk(req) if isinstance(n, ast.Assign) and atom_name(n.targets[0]) == "tag_list"]
-        ok = ok and len(seg) == 1 and len(upd) == 1 and len(tl) == 1 and not any(tl[0] is x for x in walk(lp))
-        cls_seg = [x for x in walk(lp) if isinstance(x, ast.Call) and call_name(x) == "LogicalSegment" and ctx.folder.eval(x.args[1], lx.module) == "class_id"]
-        ok = ok and len(cls_seg) == 1 and ctx.folder.eval(cls_seg[0].args[0], lx.module) == bytes.fromhex(ctx.spec("helpers")["symbol_list"]["class"])
-    ctx.check(ok, ckey(lx.key + "._get_instance_attribute_list_service", "pagination"), loops[0] if loops else req, "while last != -1: request instance = last; last = parser result; one tag list across pages", "symbol list pagination changed (loop condition / start instance / list reset)")
-    par = lx.methods["_parse_instance_attribute_list"]
-    g = ctx.cfg(par)
-    rets = {}
-    for r in [n for n in g.nodes if n.kind == "stmt" and isinstance(n.ast, ast.Return)]:
-        for t in g.nodes:
-            if t.kind == "test" and isinstance(t.ast, ast.Compare) and attr_path(t.ast.left) == "response.service_status" and isinstance(t.ast.ops[0], ast.Eq):
-                k = ctx.folder.eval(t.ast.comparators[0], lx.module)
-                if any(s is r for s, lab in t.succ if lab is True) or g.branch_dominates(t, True, r) and not any(g.branch_dominates(t2, True, r) for t2 in g.nodes if t2 is not t and t2.kind == "test" and t2.lineno > t.lineno):
-                    rets[k] = r.ast.value
-    succ, part = rets.get(0), rets.get(6)
-    ok = succ is not None and ctx.folder.eval(succ, lx.module) == -1 and part is not None and lin(part) == Lin(1, {"instance": 1})
-    ctx.check(ok, ckey(lx.key + "._parse_instance_attribute_list", "continuation"), par, "status 0 -> -1 (done); status 6 -> last decoded instance + 1", f"continuation value changed: success -> {src(succ) if succ is not None else None}, partial -> {src(part) if part is not None else None} (tags are skipped or uploaded twice)")
-    app = [c for c in walk(par) if isinstance(c, ast.Call) and attr_path(c.func) == "tag_list.append"]
-    inst = any(isinstance(n, ast.Assign) and atom_name(n.targets[0]) == "instance" and isinstance(n.value, ast.Call) and attr_path(n.value.func) == "UDINT.decode" for n in walk(par))
-    ctx.check(len(app) == 1 and inst, ckey(lx.key + "._parse_instance_attribute_list", "append"), par, "each decoded record is appended once; `instance` is the decoded instance id", "records are not appended once per decoded symbol")
+    """Pagination: the loop runs until the parser says -1, each request starts at the instance the parser returned (0 first), the
+    parser returns -1 on success and last decoded instance + 1 on a partial transfer, and one list collects all pages.
+    Decided by folding both on witnesses (D5.16)."""
+    from .driver import d5_16
+
+    d5_16(ctx)
 
 
-@rule(P, "D5.3", "T-BITS", floor=7)
+@rule(P, "D5.3", "T-WITNESS", floor=7)
 def d5_3(ctx):
-    """Symbol-type bit fields equal the specification at every use site."""
-    sp = ctx.spec("logix_symbol")["symbol_type"]
+    """Symbol-type bit fields equal the specification wherever they are used: structure flag 0x8000, dimensions 0x6000 >> 13,
+    template id 0x0FFF, elementary code 0x00FF, BOOL bit position 0x0700 >> 8, system flag 0x1000; alias = bit 26 of the software
+    control word clear.  The witness symbol words are built from the specification table, never from the code's masks; the tag
+    record builder, the member record parser and the symbol classifier are folded on them (D5.11, D5.12).  An earlier form
+    counted the mask expressions per function and matched the alias conditional expression; `not (x & BIT)` alarmed."""
+    from ..miniinterp import run_function as _run
+
     lx = _lx(ctx)
-    found = []  # (function, operand, mask, shift, node)
-    for mname in ("_create_tag", "_parse_template_data", "_parse_template_data_member_info", "_isolate_user_tags"):
-        fn = lx.methods[mname]
-        for n in walk(fn):
-            if isinstance(n, ast.BinOp) and isinstance(n.op, ast.BitAnd):
-                l, r = n.left, n.right
-                mask = ctx.folder.eval(r, lx.module)
-                opnd = src(l).replace('"', "'")
-                if not isinstance(mask, int):
-                    mask = ctx.folder.eval(l, lx.module)
-                    opnd = src(r).replace('"', "'")
-                if not isinstance(mask, int):
-                    continue
-                par = getattr(n, "_parent", None)
-                shift = ctx.folder.eval(par.right, lx.module) if isinstance(par, ast.BinOp) and isinstance(par.op, ast.RShift) and par.left is n else None
-                found.append((mname, opnd, mask, shift, n))
-    def has(mname, mask, shift=None, operand_contains=None):
-        return [f for f in found if f[0] == mname and f[2] == mask and f[3] == shift and (operand_contains is None or operand_contains in f[1])]
-    checks = [
-        ("struct-flag", has("_create_tag", sp["struct_flag"], None, "symbol_type"), f"bit 15 ({sp['struct_flag']:#06x}) marks structures"),
-        ("dims", has("_create_tag", sp["dims_mask"], sp["dims_shift"], "symbol_type"), f"dimensions = (type & {sp['dims_mask']:#06x}) >> {sp['dims_shift']}"),
-        ("template-id@create", has("_create_tag", sp["template_id_mask"], None, "symbol_type"), "template id = type & 0x0FFF"),
-        ("template-id@template", has("_parse_template_data", sp["template_id_mask"], None, "symbol_type"), "template id = type & 0x0FFF"),
-        ("template-id@member", has("_parse_template_data_member_info", sp["template_id_mask"], None, "typ"), "template id = type & 0x0FFF"),
-        ("atomic-code", has("_create_tag", sp["atomic_code_mask"], None, "symbol_type"), "elementary code = type & 0x00FF"),
-        ("bool-bit", has("_create_tag", sp["bool_bit_mask"], sp["bool_bit_shift"], "symbol_type"), "BOOL bit position = (type & 0x0700) >> 8"),
-        ("system-flag", has("_isolate_user_tags", sp["system_flag"], None, "symbol_type"), "bit 12 marks system tags"),
-    ]
-    for role, hits, what in checks:
-        ctx.check(len(hits) == 1, ckey(lx.key, f"symbol-type:{role}"), hits[0][4] if hits else lx.node, what, f"{what}: expected exactly one such mask use, found {len(hits)} (uses: {[(f[0], hex(f[2]), f[3]) for f in found]})")
-    extra = [f for f in found if "symbol_type" in f[1] and f[2] not in (sp["struct_flag"], sp["dims_mask"], sp["template_id_mask"], sp["atomic_code_mask"], sp["bool_bit_mask"], sp["system_flag"])]
-    ctx.check(not extra, ckey(lx.key, "symbol-type:unknown-masks"), extra[0][4] if extra else lx.node, "no other masks are applied to the symbol type", f"unspecified masks applied to the symbol type: {[(f[0], hex(f[2])) for f in extra]}")
+    sp = ctx.spec("logix_symbol")
     btb = ctx.folder.module_value("pycomm3.const", "BASE_TAG_BIT")
-    use = [n for n in walk(lx.methods["_create_tag"]) if isinstance(n, ast.BinOp) and isinstance(n.op, ast.BitAnd) and atom_name(n.right) == "BASE_TAG_BIT" and "software_control" in src(n.left)]
-    alias = [n for n in walk(lx.methods["_create_tag"]) if isinstance(n, ast.IfExp) and use and n.test is use[0]]
-    ok = btb == ctx.spec("logix_symbol")["base_tag_bit"] and len(use) == 1 and len(alias) == 1 and ctx.folder.eval(alias[0].body, lx.module) is False and ctx.folder.eval(alias[0].orelse, lx.module) is True
-    ctx.check(ok, ckey(lx.key + "._create_tag", "alias"), use[0] if use else lx.node, "alias = not (software_control & (1 << 26))", "alias flag is not derived from bit 26 of software_control")
-    # struct branch decides by the struct flag; atomic branch resolves the code through DataTypes
+    ctx.check(btb == sp["base_tag_bit"], "pycomm3.const:BASE_TAG_BIT", lx.node, f"BASE_TAG_BIT = {sp['base_tag_bit']:#x} (bit 26)", f"BASE_TAG_BIT is {btb!r}; the specification has {sp['base_tag_bit']:#x}")
     ct = lx.methods["_create_tag"]
-    sf = has("_create_tag", sp["struct_flag"], None, "symbol_type")
-    ok = bool(sf) and isinstance(getattr(sf[0][4], "_parent", None), ast.If)
-    ctx.check(ok, ckey(lx.key + "._create_tag", "struct-branch"), ct, "structure vs atomic is decided by the struct flag", "the struct/atomic decision does not test the struct flag directly")
+    bit = sp["base_tag_bit"]
+
+    def hook(call, env, it):
+        if (attr_path(call.func) or "") == "DataTypes.get_type" or (call_name(call) or "") in ("Array", "str", "reduce"):
+            return "x"
+        return UNKNOWN
+
+    for label, sc, want in (("only bit 26 set", bit, False), ("every bit but 26", 0xFFFFFFFF & ~bit, True), ("zero", 0, True), ("all ones", 0xFFFFFFFF, False)):
+        rt = {"symbol_type": 0x00C4, "software_control": sc, "instance_id": 5, "symbol_address": 1, "symbol_object_address": 2, "external_access": "Read/Write", "dimensions": [0, 0, 0]}
+        kind, res = _run(ctx, lx.module, ct, {"self": witness_instance(lx), ct.args.args[1].arg: "T", ct.args.args[2].arg: rt}, call_hook=hook, deep=False)
+        key = ckey(lx.key + "._create_tag", f"alias:{label}")
+        if kind == "unknown":
+            ctx.undecided(key, ct, f"_create_tag not foldable on software control {sc:#x}: {res}")
+        else:
+            ctx.check(kind == "return" and isinstance(res, dict) and res.get("alias") is want, key, ct, f"software control {sc:#010x} ({label}) -> alias {want}", f"software control {sc:#010x} ({label}) gives alias {res.get('alias') if isinstance(res, dict) else res!r}; bit 26 set means a base tag (alias False)")
+    d5_11(ctx)
+    d5_12(ctx)
 
 
 @rule(P, "D5.4", "T-DOM", floor=6)
@@ -244,67 +158,14 @@ def d5_4(ctx):
     ctx.check(ok and pq, ckey(lx.key + "._isolate_user_tags", "record"), A.ast, "the user tag is created from this symbol under its (program-qualified) name", "user tag record is not created from (name, tag) / program qualification changed")
 
 
-@rule(P, "D5.5", "T-ACC", floor=3)
+@rule(P, "D5.5", "T-WITNESS", floor=3)
 def d5_5(ctx):
-    """Template read: offset from 0, += len(chunk just concatenated), request carries offset and remaining size, ends on success, other statuses raise."""
-    lx = _lx(ctx)
-    fn = lx.methods["_read_template"]
-    loops = [n for n in walk(fn) if isinstance(n, ast.While)]
-    if len(loops) != 1:
-        ctx.undecided(ckey(lx.key + "._read_template"), fn, "loop not found")
-        return
-    lp = loops[0]
-    # accumulator normal form: every numeric variable carried by the loop is  init + k * R  where R is the number of bytes
-    # received so far (each update adds k * len(chunk just concatenated)); the request fields are then linear forms in R
-    returned = {atom_name(r.value) for r in walk(fn) if isinstance(r, ast.Return) and r.value is not None}
-    cat = [n for n in walk(lp) if isinstance(n, ast.AugAssign) and isinstance(n.op, ast.Add) and isinstance(n.target, ast.Name) and n.target.id in returned]
-    chunk_len = f"len({src(cat[0].value)})" if len(cat) == 1 else None
-    carried, problems = {}, []
-    for n in walk(lp):
-        if isinstance(n, ast.AugAssign) and isinstance(n.target, ast.Name) and n is not (cat[0] if cat else None) and isinstance(n.op, (ast.Add, ast.Sub)):
-            v = n.target.id
-            inits = [x for x in walk(fn) if isinstance(x, ast.Assign) and atom_name(x.targets[0]) == v and x.lineno < lp.lineno]
-            d = lin(n.value)
-            li = lin(inits[0].value) if len(inits) == 1 else None
-            if v in carried or li is None or d is None or chunk_len is None or set(d.terms) != {chunk_len} or d.const != 0:
-                problems.append(f"`{src(n)}` does not advance {v} by a multiple of {chunk_len}")
-                continue
-            k = d.terms[chunk_len] * (1 if isinstance(n.op, ast.Add) else -1)
-            carried[v] = li + Lin(0, {"<received>": k})
-    ok = len(cat) == 1 and not problems and bool(carried)
-    ctx.check(ok, ckey(lx.key + "._read_template", "offset"), cat[0] if cat else lp, f"loop variables advance by the length of the chunk just concatenated: {{{', '.join(f'{k}: {v!r}' for k, v in carried.items())}}}",
-              f"template read bookkeeping is not a running count of the data received: {problems or 'no accumulator found'}")
-    rd = None
-    for c in walk(lp):
-        if isinstance(c, ast.Call) and attr_path(c.func) == "self.generic_message":
-            rd = {k.arg: k.value for k in c.keywords}.get("request_data")
-    ok = False
-    facts = {}
-    if isinstance(rd, ast.Call) and isinstance(rd.func, ast.Attribute) and rd.func.attr == "join" and isinstance(rd.args[0], (ast.Tuple, ast.List)) and len(rd.args[0].elts) == 2:
-        a, b = rd.args[0].elts
-        la = lin(a.args[0], subst=carried) if isinstance(a, ast.Call) else None
-        lb = lin(b.args[0], subst=carried) if isinstance(b, ast.Call) else None
-        ta = ctx.folder.eval(a.func.value, lx.module) if isinstance(a, ast.Call) else None
-        tb = ctx.folder.eval(b.func.value, lx.module) if isinstance(b, ast.Call) else None
-        facts = {"offset_field": repr(la), "size_field": repr(lb)}
-        ok = la == Lin(0, {"<received>": 1}) and lb == Lin(-21, {"object_definition_size": 4, "<received>": -1}) and isinstance(ta, ClassRef) and ctx.folder.class_attr(ta.ci, "size") == 4 and isinstance(tb, ClassRef) and tb.ci.name == "UINT"
-    ctx.check(ok, ckey(lx.key + "._read_template", "request"), lp, "request = 4-byte offset (= bytes received) + UINT((definition size * 4 - 21) - bytes received)", f"template read request fields are not (received, total - received): {facts}", **facts)
-    g = ctx.cfg(fn)
-    brk = [n for n in g.nodes if n.kind == "stmt" and isinstance(n.ast, ast.Break)]
-    ok = False
-    for t in g.nodes:
-        if t.kind == "test" and isinstance(t.ast, ast.Compare) and "service_status" in src(t.ast.left) and isinstance(t.ast.ops[0], ast.Eq) and ctx.folder.eval(t.ast.comparators[0], lx.module) == 0:
-            ok = len(brk) == 1 and g.branch_dominates(t, True, brk[0])
-    bad = [t for t in g.nodes if t.kind == "test" and isinstance(t.ast, ast.Compare) and isinstance(t.ast.ops[0], ast.NotIn) and "service_status" in src(t.ast.left)]
-    ok2 = False
-    if bad:
-        allowed = ctx.folder.eval(bad[0].ast.comparators[0], lx.module)
-        raised, cont = branch_outcome(g, bad[0], True)
-        ok2 = isinstance(allowed, tuple) and set(allowed) == {0, 6} and raised == {"ResponseError"} and not cont
-    ctx.check(ok and ok2, ckey(lx.key + "._read_template", "termination"), lp, "ends on status 0; statuses other than 0/6 raise ResponseError", "template read no longer stops exactly on success / tolerates other statuses")
-    const = isinstance(lp.test, ast.Constant) and lp.test.value is True
-    ret = [r for r in walk(fn) if isinstance(r, ast.Return)]
-    ctx.check(const and len(ret) == 1 and atom_name(ret[0].value) == "template_raw", ckey(lx.key + "._read_template", "result"), fn, "returns the concatenated template", "does not return the concatenated template bytes")
+    """Template read: offset from 0, advanced by the bytes of each reply; every request carries the offset and the bytes still
+    missing; the loop ends on success and raises on any status other than 0 / 6; the pieces are concatenated in order.
+    Decided by folding `_read_template` on witness replies (D5.17)."""
+    from .driver import d5_17
+
+    d5_17(ctx)
 
 
 @rule(P, "D5.6", "T-SPEC", floor=3)
@@ -610,6 +471,7 @@ def d5_11(ctx):
         ("INT[4] @12", _st.pack("<HHI", 4, 0x20C3, 12), {"offset": 12, "tag_type": "atomic", "data_type": "INT", "array": 4, "type_class": ("array", 4, "INT")}, None),
         ("UDT 0x234 @16", _st.pack("<HHI", 0, 0x8234, 16), {"offset": 16, "tag_type": "struct", "data_type_name": "udt564", "type_class": ("struct-class", 0x234)}, ("array", 0)),
         ("UDT 0x234 [3] @20", _st.pack("<HHI", 3, 0xA234, 20), {"offset": 20, "tag_type": "struct", "array": 3, "type_class": ("array", 3, ("struct-class", 0x234))}, None),
+        ("UDT 0xFCE @24 (all twelve template-id bits)", _st.pack("<HHI", 0, 0x8FCE, 24), {"offset": 24, "tag_type": "struct", "data_type_name": "udt4046", "type_class": ("struct-class", 0xFCE)}, ("array", 0)),
     ]
     for label, info, want, extra in mcases:
         kind, res = run_function(ctx, lx.module, mi, {"self": witness_instance(lx), mi.args.args[1].arg: info}, call_hook=hook, deep=False)
